@@ -240,7 +240,13 @@ func (mw *Middleware) setFilteredResponse(
 				"creating blocked resp for filtered req",
 				err,
 			)
-			fctx.filteredResponse = fctx.originalResponse
+
+			// Do not fall back to the upstream response: the request is
+			// blocked, so refuse it if the blocking mode cannot be applied.
+			fctx.filteredResponse = ri.Messages.NewBlockedRespRCode(
+				fctx.originalRequest,
+				dns.RcodeRefused,
+			)
 		}
 	case *filter.ResultAllowed, *filter.ResultModifiedRequest:
 		fctx.filteredResponse = fctx.originalResponse
@@ -283,7 +289,13 @@ func (mw *Middleware) setFilteredResponseNoReq(
 				"creating blocked resp for filtered resp",
 				err,
 			)
-			fctx.filteredResponse = fctx.originalResponse
+
+			// Do not fall back to the upstream response: the response is
+			// blocked, so refuse it if the blocking mode cannot be applied.
+			fctx.filteredResponse = ri.Messages.NewBlockedRespRCode(
+				fctx.originalRequest,
+				dns.RcodeRefused,
+			)
 		}
 	default:
 		// Consider [*filter.ResultModifiedResponse] and
